@@ -11,6 +11,7 @@
 import AisVerif.Lemmas.Char
 import AisVerif.Spec.Layouts
 import AisVerif.Lemmas.Encode
+import AisVerif.Props.C05
 
 namespace AisVerif.C04
 open AisVerif Spec
@@ -346,5 +347,82 @@ theorem roundtrip_t06 (cfg : Cfg) (rep mmsi seqno dest retransmit dac fid : Nat)
   · exact rt ⟨.retransmit, 70, 1, .flag⟩ (by simp [Layout.t06, Spec.common]) ⟨70, 1, retransmit⟩ (by simp) rfl rfl
   · exact rt ⟨.dac, 72, 10, .nat⟩ (by simp [Layout.t06, Spec.common]) ⟨72, 10, dac⟩ (by simp) rfl rfl
   · exact rt ⟨.fid, 82, 6, .nat⟩ (by simp [Layout.t06, Spec.common]) ⟨82, 6, fid⟩ (by simp) rfl rfl
+
+
+/-! ### The whole pipeline: values → bits → characters → line → parser → values -/
+
+/-- **Transmit and receive.** Take any assignment of values to non-overlapping fields (`rows`), pack it
+    into an `n`-bit payload (`n` a multiple of 24, so that bits, characters and bytes all end together:
+    72, 96, 168, 312 … bits), armor it, render `!AIVDM,1,1,,A,<payload>,0*<checksum>` and feed that line,
+    with decoding on, to a parser in any state, in any build.  Then the answer is `Complete`, carrying
+    exactly the message `parseMessage` gives for the packed bytes, the parser state is untouched, and —
+    whenever that message reports a layout `table` — every transmitted value comes back under its key. -/
+theorem line_roundtrip (cfg : Cfg) (st : PState) (table : List FieldSpec) (n : Nat) (rows : List Row) (m : Msg)
+    (hok : RowsOK n rows) (hn : n % 24 = 0) (hpos : 0 < n) (hcap : n / 6 ≤ maxSentence)
+    (hp : parseMessage cfg (encodeRows n rows) = ok m)
+    (hrep : Reports m (encodeRows n rows) table) :
+    step cfg st (C05.renderLine (C05.unfragBody
+        (Spec.armor (encodeRows n rows) (8 * (encodeRows n rows).length)).1
+        (Spec.armor (encodeRows n rows) (8 * (encodeRows n rows).length)).2)) true =
+      (st, ok (Frag.complete { (C05.unfragBody
+        (Spec.armor (encodeRows n rows) (8 * (encodeRows n rows).length)).1
+        (Spec.armor (encodeRows n rows) (8 * (encodeRows n rows).length)).2).sentence with message := some m })) ∧
+    ∀ e ∈ table, ∀ r ∈ rows, r.off = e.off → r.w = e.w → m.get e.key = some (e.renderVal r.v) := by
+  refine ⟨?_, roundtrip m table n rows hok hrep⟩
+  have hlen : (encodeRows n rows).length = n / 8 := by
+    unfold encodeRows; rw [packBits_length]; omega
+  have hne : encodeRows n rows ≠ [] := by
+    intro h; rw [h] at hlen; simp at hlen; omega
+  have hsz : (8 * (encodeRows n rows).length + 5) / 6 ≤ maxSentence := by rw [hlen]; unfold maxSentence at *; omega
+  have hpad : Spec.unarmorLen ((8 * (encodeRows n rows).length + 5) / 6) - (encodeRows n rows).length = 0 := by
+    rw [hlen]; unfold Spec.unarmorLen; omega
+  have h := C05.unfragmented_line_decodes cfg st (encodeRows n rows) hne hsz
+  rw [hpad] at h
+  simp only [List.replicate_zero, List.append_nil, hp, Res.ok_bind] at h
+  exact h
+
+/-- Non-vacuity: a 72-bit type-10 inquiry (type, repeat, MMSI, destination) meets the side conditions. -/
+example : RowsOK 72 [⟨0, 6, 10⟩, ⟨6, 2, 1⟩, ⟨8, 30, 227006760⟩, ⟨40, 30, 2655651⟩] ∧ 72 % 24 = 0 ∧ 72 / 6 ≤ maxSentence := by
+  refine ⟨⟨?_, ?_⟩, by decide, by decide⟩
+  · intro r hr
+    simp only [List.mem_cons, List.not_mem_nil, or_false] at hr
+    rcases hr with rfl | rfl | rfl | rfl <;> simp only [] <;> omega
+  · simp [List.pairwise_cons]
+
+
+/-- **A complete instance, nothing assumed:** for every repeat indicator, source and destination MMSI (each
+    within its width), in every build and parser state, the UTC-inquiry line built from them is answered
+    with a `Complete` sentence whose decoded message is a `UtcDateInquiry` reporting exactly those values. -/
+theorem line_roundtrip_t10 (cfg : Cfg) (st : PState) (rep mmsi dest : Nat)
+    (h1 : rep < 2 ^ 2) (h2 : mmsi < 2 ^ 30) (h3 : dest < 2 ^ 30) :
+    ∃ m : Msg, ∃ s : Sentence,
+      step cfg st (C05.renderLine (C05.unfragBody
+        (Spec.armor (encodeRows 72 [⟨0, 6, 10⟩, ⟨6, 2, rep⟩, ⟨8, 30, mmsi⟩, ⟨40, 30, dest⟩]) (8 * (encodeRows 72 [⟨0, 6, 10⟩, ⟨6, 2, rep⟩, ⟨8, 30, mmsi⟩, ⟨40, 30, dest⟩]).length)).1
+        (Spec.armor (encodeRows 72 [⟨0, 6, 10⟩, ⟨6, 2, rep⟩, ⟨8, 30, mmsi⟩, ⟨40, 30, dest⟩]) (8 * (encodeRows 72 [⟨0, 6, 10⟩, ⟨6, 2, rep⟩, ⟨8, 30, mmsi⟩, ⟨40, 30, dest⟩]).length)).2)) true
+        = (st, ok (Frag.complete s)) ∧
+      s.message = some m ∧ m.kind = .UtcDateInquiry ∧
+      m.get .message_type = some (.nat 10) ∧ m.get .repeat_indicator = some (.nat rep) ∧
+      m.get .mmsi = some (.nat mmsi) ∧ m.get .dest_mmsi = some (.nat dest) := by
+  have hok : RowsOK 72 [⟨0, 6, 10⟩, ⟨6, 2, rep⟩, ⟨8, 30, mmsi⟩, ⟨40, 30, dest⟩] := by
+    refine ⟨?_, ?_⟩
+    · intro r hr
+      simp only [List.mem_cons, List.not_mem_nil, or_false] at hr
+      rcases hr with rfl | rfl | rfl | rfl <;> simp only [] <;> omega
+    · simp [List.pairwise_cons]
+  generalize hbs : encodeRows 72 [⟨0, 6, 10⟩, ⟨6, 2, rep⟩, ⟨8, 30, mmsi⟩, ⟨40, 30, dest⟩] = bs at *
+  have ht : field bs 0 6 = 10 := by
+    rw [← hbs]; exact field_encodeRows 72 _ hok ⟨0, 6, 10⟩ (by simp)
+  have hlen : bs.length = 9 := by rw [← hbs]; unfold encodeRows; rw [packBits_length]
+  have hp : parseMessage cfg bs = ok (Spec.decodeT10 bs) := by
+    rw [decode_of_len cfg bs (by omega), ht, dispatch_T10, if_pos (by omega)]
+  have hrep := t10 cfg bs _ ht hp
+  have lr := line_roundtrip cfg st Layout.t10 72 [⟨0, 6, 10⟩, ⟨6, 2, rep⟩, ⟨8, 30, mmsi⟩, ⟨40, 30, dest⟩] (Spec.decodeT10 bs)
+    hok (by decide) (by decide) (by decide) (by rw [hbs]; exact hp) (by rw [hbs]; exact hrep)
+  rw [hbs] at lr
+  refine ⟨Spec.decodeT10 bs, _, lr.1, rfl, rfl, ?_, ?_, ?_, ?_⟩
+  · exact lr.2 ⟨.message_type, 0, 6, .nat⟩ (by simp [Layout.t10, Spec.common]) ⟨0, 6, 10⟩ (by simp) rfl rfl
+  · exact lr.2 ⟨.repeat_indicator, 6, 2, .nat⟩ (by simp [Layout.t10, Spec.common]) ⟨6, 2, rep⟩ (by simp) rfl rfl
+  · exact lr.2 ⟨.mmsi, 8, 30, .nat⟩ (by simp [Layout.t10, Spec.common]) ⟨8, 30, mmsi⟩ (by simp) rfl rfl
+  · exact lr.2 ⟨.dest_mmsi, 40, 30, .nat⟩ (by simp [Layout.t10, Spec.common]) ⟨40, 30, dest⟩ (by simp) rfl rfl
 
 end AisVerif.C04
